@@ -1,5 +1,76 @@
-import Smooth.Model.Surface
+/-
+C17 — Only the library's own errors escape, and results are real numbers.
+
+The model makes "a Python arithmetic error would have escaped here" an observable outcome:
+`.error .zeroDiv` (`/` by zero), `.error .valueErr` (`math.sqrt`/`math.log` outside their domain),
+`.error .complex` (a negative number to a fractional power).  These theorems say none of them — nor
+`usage`, `unsupported`, `fuel` — is ever the outcome of evaluation, forward mode or reverse mode,
+at any point whatsoever (inside, outside or on the boundary of the domain, with or without missing
+coordinates); and a successful outcome is `.ok` of a real number by the type of the model.
+Overflow, recursion depth and memory are outside the model (no real-number model exhibits them).
+-/
+import Smooth.Proofs.Reverse
+import Smooth.Model.Objects
+
 namespace Smooth
-/-- placeholder while the property file is being written -/
-theorem C17_placeholder : (1 : Nat) = 1 := rfl
+open Expr
+
+/-- **C17, evaluation.** -/
+theorem eval_error_kinds (p : Point ℝ) (e : Expr ℝ) (hwf : WF e) (err : Err)
+    (h : evalG realNum p e = .error err) : err = .domain ∨ err = .missing :=
+  (evalR_good p e hwf).error_cases h
+
+/-- **C17, forward mode** (`Partial.at`, `Derivative.at`, `component_at`, late). -/
+theorem fwd_error_kinds (p : Point ℝ) (x : String) (e : Expr ℝ) (hwf : WF e) (err : Err)
+    (h : fwdG realNum p x e = .error err) : err = .domain ∨ err = .missing :=
+  (fwdR_spec p x e hwf).2.2 err h
+
+/-- **C17, reverse mode** (`LocatedDifferential`, `Differential.at`, late). -/
+theorem rev_error_kinds (p : Point ℝ) (e : Expr ℝ) (hwf : WF e) (m : ℝ) (acc : Acc ℝ) (err : Err)
+    (h : revG realNum p e m acc = .error err) : err = .domain ∨ err = .missing :=
+  (revR_spec p e hwf m acc).2.2 err h
+
+theorem numericPartials_error_kinds (p : Point ℝ) (e : Expr ℝ) (hwf : WF e) (err : Err)
+    (h : numericPartials realNum p e = .error err) : err = .domain ∨ err = .missing := by
+  simp only [numericPartials, realNum_one] at h
+  cases hr : revG realNum p e 1 [] with
+  | error e1 =>
+    simp only [hr, bind, Except.bind] at h
+    injection h with h; subst h
+    exact rev_error_kinds p e hwf _ _ _ hr
+  | ok a => simp [hr, bind, Except.bind, pure, Except.pure] at h
+
+/-- in particular no CPython-level error is ever produced -/
+theorem no_python_error (p : Point ℝ) (x : String) (e : Expr ℝ) (hwf : WF e) :
+    (∀ k ∈ [Err.zeroDiv, .valueErr, .complex, .usage, .unsupported, .fuel],
+      evalG realNum p e ≠ .error k ∧ fwdG realNum p x e ≠ .error k ∧
+      ∀ m acc, revG realNum p e m acc ≠ .error k) := by
+  intro k hk
+  refine ⟨fun h => ?_, fun h => ?_, fun m acc h => ?_⟩
+  · rcases eval_error_kinds p e hwf k h with rfl | rfl <;> simp at hk
+  · rcases fwd_error_kinds p x e hwf k h with rfl | rfl <;> simp at hk
+  · rcases rev_error_kinds p e hwf m acc k h with rfl | rfl <;> simp at hk
+
+/-- the bare-number entry point adds exactly one more outcome, the documented generic exception for
+expressions with two or more variables -/
+theorem atNumber_error_kinds (e : Expr ℝ) (hwf : WF e) (t : ℝ) (err : Err)
+    (h : atNumber realNum e t = .error err) : err = .domain ∨ err = .missing ∨ err = .usage := by
+  unfold atNumber at h
+  cases hs : singleVarName e with
+  | error e1 =>
+    simp only [hs, bind, Except.bind] at h
+    injection h with h; subst h
+    unfold singleVarName at hs
+    split at hs <;> cases hs <;> simp
+  | ok x =>
+    simp only [hs, bind, Except.bind] at h
+    rcases eval_error_kinds _ e hwf err h with h | h
+    · exact Or.inl h
+    · exact Or.inr (Or.inl h)
+
+/-- non-vacuity: an expression whose derivative formulas divide, take logarithms and fractional
+powers, at a boundary point with a coordinate missing -/
+example : WF (mkDiv (mkNRoot (mkVar "x") 3) (mkLog (mkVar "y") (1 / 2)) : Expr ℝ) := by
+  simp [WF]
+
 end Smooth
